@@ -172,35 +172,23 @@ class Driver:
 
     def __init__(self):
         ensure_driver()
-        self.p = subprocess.Popen([str(DRIVER)], stdin=subprocess.PIPE, stdout=subprocess.PIPE, text=True, bufsize=1)
+        # binary pipes: no universal-newline translation (answers may echo raw CR bytes)
+        self.p = subprocess.Popen([str(DRIVER)], stdin=subprocess.PIPE, stdout=subprocess.PIPE)
         self.n = 0
 
     def ask(self, line: str) -> str:
         assert "\n" not in line
-        self.p.stdin.write(line + "\n")
+        self.p.stdin.write(line.encode("utf-8") + b"\n")
         self.p.stdin.flush()
         out = self.p.stdout.readline()
-        if out == "":
+        if out == b"":
             raise ToolFailure("driver died on: " + line[:300])
         self.n += 1
-        return out.rstrip("\n")
+        return out.rstrip(b"\n").decode("utf-8", "replace")
 
     def ask_many(self, lines: list[str]) -> list[str]:
-        # pipelined: write all, then read all (bounded batches to avoid pipe deadlock)
-        res = []
-        B = 200
-        for i in range(0, len(lines), B):
-            chunk = lines[i:i + B]
-            for l in chunk:
-                self.p.stdin.write(l + "\n")
-            self.p.stdin.flush()
-            for _ in chunk:
-                out = self.p.stdout.readline()
-                if out == "":
-                    raise ToolFailure("driver died")
-                res.append(out.rstrip("\n"))
-        self.n += len(lines)
-        return res
+        # one line at a time: long lines would fill the pipe buffers in a pipelined exchange
+        return [self.ask(l) for l in lines]
 
     def close(self):
         try:
